@@ -198,6 +198,11 @@ pub fn exec(p: &[&str], scratch: &str) -> String {
                 // the mapped file itself: every byte written (no NUL left)
                 if p[1] == "ofile" { if let Ok(b) = std::fs::read(format!("{}/case/out.vec", scratch)) { if b.contains(&0u8) || b.len() != cap { tiled = 0; } } }
             }
+            // the mapped oligo writer: the (offset, length) of every write_at, in offset order, against the model's layout
+            if p[1] == "ofile" {
+                let lay: Vec<String> = writes.iter().map(|(pos, len, _)| format!("{}:{}", pos, len)).collect();
+                return format!("oob=0|tiled={}|writes={}|index={}|layout={}", tiled, writes.len(), index, lay.join(","));
+            }
             format!("oob=0|tiled={}|writes={}|index={}", tiled, writes.len(), index)
         }
         _ => format!("UNKNOWN-OP {}", p[0]),
